@@ -1389,8 +1389,21 @@ def check_c13(idx: Index, tier: str, res: Result) -> None:
     aloop = aloops[0]
     av = aloop.target.id
     ploops = [n for n in ast.walk(aloop) if isinstance(n, ast.For) and n is not aloop]
-    if len(ploops) != 1 or not (isinstance(ploops[0].iter, ast.Call) and src(ploops[0].iter) == "%s.properties.items()" % av
-                                and isinstance(ploops[0].target, ast.Tuple) and len(ploops[0].target.elts) == 2):
+    def own_properties(it) -> bool:
+        """agent.properties.items() / (agent.properties or {}).items()"""
+        if not (isinstance(it, ast.Call) and call_name(it) == "items" and isinstance(it.func, ast.Attribute) and not it.args):
+            return False
+        base = it.func.value
+        if isinstance(base, ast.BoolOp) and isinstance(base.op, ast.Or) and len(base.values) == 2 and isinstance(base.values[1], ast.Dict) and not base.values[1].keys:
+            base = base.values[0]
+        return src(base) == "%s.properties" % av
+    if len(ploops) != 1 or not (own_properties(ploops[0].iter) and isinstance(ploops[0].target, ast.Tuple) and len(ploops[0].target.elts) == 2):
+        for pl in ploops[:1]:
+            if isinstance(pl.iter, ast.Call) and (call_recv(pl.iter) or "") == "self":
+                res.find("FOLD", "FOLD/properties/remembered-names", fi.loc(pl), fi.qual, norm_stmt(pl)[:90],
+                         "which properties of an agent are aggregated is answered by %s - something the collector keeps between agents - not read "
+                         "from the agent's own properties: two agents of one type with different property sets are aggregated with the names of "
+                         "whichever was seen first, a numeric property the first one lacks is never aggregated" % src(pl.iter)[:50])
         raise AnalysisError("property loop 'for name, value in agent.properties.items()' not found")
     ploop = ploops[0]
     pname, pval = [e.id for e in ploop.target.elts]
@@ -1652,6 +1665,29 @@ def check_c13(idx: Index, tier: str, res: Result) -> None:
         src(n).replace("'", '"') == 'states[column]["count"]' for n in reads)
     res.check("KEYS", "frame built from states[state][property][type] and ['count']", okr, gdf.loc(), gdf.qual,
               "; ".join(sorted({src(n) for n in reads}))[:160], "the frame is not filled from the collector's cells", key="KEYS/get_df_for_agent/reads")
+    # what is reported for a time is read from that time's row: nothing the per-time loop uses to decide *which* states / columns exist was
+    # taken from the recorded data before the loop (the first row knows only the states that were populated then)
+    dparam = params(gdf.node)[1] if len(params(gdf.node)) > 1 else "data"
+    nrow = 0
+    for fn_ in [gdf.node] + [x for x in ast.walk(gdf.node) if isinstance(x, ast.FunctionDef) and x is not gdf.node]:
+        dnames = {dparam} | {a.arg for a in fn_.args.args if a.arg == dparam}
+        for lp in [x for x in walk_no_nested(fn_) if isinstance(x, ast.For) and isinstance(x.iter, ast.Call) and call_name(x.iter) in ("items", "values")
+                   and isinstance(x.iter.func.value, ast.Name) and x.iter.func.value.id in dnames]:
+            nrow += 1
+            before = {}
+            for a in sorted([x for x in walk_no_nested(fn_) if isinstance(x, ast.Assign)], key=seq):
+                if isinstance(a, ast.Assign) and len(a.targets) == 1 and isinstance(a.targets[0], ast.Name) and seq(a) < seq(lp) \
+                        and not any(x is a for x in ast.walk(lp)):
+                    dep = any(isinstance(x, ast.Name) and (x.id in dnames or x.id in before) for x in ast.walk(a.value))
+                    if dep:
+                        before[a.targets[0].id] = a
+            used = [x for b_ in lp.body for x in ast.walk(b_) if isinstance(x, ast.Name) and isinstance(x.ctx, ast.Load) and x.id in before]
+            res.check("KEYS", "the per-time loop of %s reads the states of its own row" % fn_.name, not used, gdf.loc(before[used[0].id]) if used else gdf.loc(lp), gdf.qual,
+                      norm_stmt(before[used[0].id])[:100] if used else norm_stmt(lp)[:60],
+                      "%s is worked out from the recorded data before the loop over the times (`%s`) and used for every time: a state that is empty "
+                      "at the first recorded time and populated later never gets a column, its counts and aggregates are missing from every format"
+                      % (used[0].id if used else "", norm_stmt(before[used[0].id])[:70] if used else ""), key="KEYS/get_df_for_agent/states-from-first-row")
+    res.floor("per-time loops of get_df_for_agent", nrow, 1)
     rets = [n for n in gdf.node.body if isinstance(n, ast.Return)]
     fa = rets[-1].value if rets else None
     fv = None
